@@ -283,6 +283,7 @@ def text_unit(unit: Tuple[Any, ...]) -> Part:
     from odxtools.isotp_state_machine import IsoTpStateMachine
     tx_dl, lens, fmt = unit[:3]
     noise = bool(unit[3]) if len(unit) > 3 else False
+    cut = bool(unit[4]) if len(unit) > 4 else False  # the log ends with the last frame of a telegram and without a newline
     part = Part()
     frames: List[Tuple[int, bytes]] = []
     for k, n in enumerate(lens):
@@ -290,6 +291,8 @@ def text_unit(unit: Tuple[Any, ...]) -> Part:
         fr = [(cid, f) for f in segment(pattern(n, k), tx_dl, [None, 0xAA][k % 2])]
         frames += fr
         frames.append((FOREIGN, bytes([0x02, 0x3E, 0x00])))
+    if cut:
+        frames.pop()
     direct, exc = feed(IsoTpStateMachine([IDS[0], IDS[1]]), frames)
     text = render(frames, fmt)
     tag = fmt
@@ -301,8 +304,11 @@ def text_unit(unit: Tuple[Any, ...]) -> Part:
             mixed.append(NOISE[k % len(NOISE)])
         text = "\n".join(mixed) + "\n"
         tag = fmt + "+noise"
+    if cut:
+        text = text.rstrip("\n") if not noise else "\n".join(text.splitlines()[:-1])  # (the last line is the last frame)
+        tag += "+no-final-newline"
     part.count("text_streams")
-    case = {"mode": "text", "tx_dl": tx_dl, "lens": list(lens), "fmt": fmt, "noise": noise}
+    case = {"mode": "text", "tx_dl": tx_dl, "lens": list(lens), "fmt": fmt, "noise": noise, "cut": cut}
     try:
         with contextlib.redirect_stderr(io.StringIO()):
             via_text = [(i, bytes(t)) for i, t in drive_async(IsoTpStateMachine([IDS[0], IDS[1]]).read_telegrams(io.StringIO(text)))]
@@ -500,6 +506,8 @@ def run(ctx: Ctx) -> None:
             for lens in ((5,), (20,), (5, 20), (118, 7, 30), (7, 8, 63, 4095 if not q else 300)):
                 tunits.append((tx_dl, lens, fmt, False))
                 tunits.append((tx_dl, lens, fmt, True))
+                tunits.append((tx_dl, lens, fmt, False, True))
+                tunits.append((tx_dl, lens, fmt, True, True))
     pmap(ctx, text_unit, tunits)
     # (e)
     aunits = []
@@ -534,7 +542,7 @@ def replay(case: Any) -> List[Tuple[str, str]]:
     elif mode == "seq":
         p = seq_unit((case["tx_dl"], tuple(case["lens"]), "same" if case.get("same") else "distinct"))
     elif mode == "text":
-        p = text_unit((case["tx_dl"], tuple(case["lens"]), case["fmt"], case.get("noise", False)))
+        p = text_unit((case["tx_dl"], tuple(case["lens"]), case["fmt"], case.get("noise", False), case.get("cut", False)))
     elif mode == "active-len":
         p = active_len_unit((case["len"], case["tx_dl"]))
     elif mode == "active":
